@@ -1,7 +1,8 @@
 #!/usr/bin/env python3
 """Confirms a seeded change delivered by a sub-agent and records it under /verif/seeded/<name>/.
 
-  tools/seeded.py <name> <agent-worktree> <property> [more properties to try ...] [--tier quick|thorough]
+  tools/seeded.py <name> <agent-worktree | -> <property> [more properties to try ...] [--tier quick|thorough]
+  ("-" instead of a worktree re-checks the change already recorded under seeded/<name>)
 
 Steps (all in a fresh scratch worktree of /repo HEAD outside /repo and /verif, removed afterwards):
   1. patch applies, `go build ./...` and the full existing test suite pass with it;
@@ -35,15 +36,16 @@ def main():
         tier = sys.argv[sys.argv.index("--tier") + 1]
         args = [a for a in args if a != tier]
     name, wt, props = args[0], args[1], args[2:]
-    src = os.path.join(wt, "SEEDED")
     dst = os.path.join(VERIF, "seeded", name)
-    os.makedirs(dst, exist_ok=True)
-    for f in ("patch.diff", "NOTES.md"):
-        if os.path.exists(os.path.join(src, f)):
-            shutil.copy(os.path.join(src, f), os.path.join(dst, f))
-    if os.path.isdir(os.path.join(src, "demo")):
-        shutil.rmtree(os.path.join(dst, "demo"), ignore_errors=True)
-        shutil.copytree(os.path.join(src, "demo"), os.path.join(dst, "demo"))
+    if wt != "-":  # "-" = re-check what is already recorded under seeded/<name>
+        src = os.path.join(wt, "SEEDED")
+        os.makedirs(dst, exist_ok=True)
+        for f in ("patch.diff", "NOTES.md"):
+            if os.path.exists(os.path.join(src, f)):
+                shutil.copy(os.path.join(src, f), os.path.join(dst, f))
+        if os.path.isdir(os.path.join(src, "demo")):
+            shutil.rmtree(os.path.join(dst, "demo"), ignore_errors=True)
+            shutil.copytree(os.path.join(src, "demo"), os.path.join(dst, "demo"))
     scratch = "/tmp/sv-%s-%d" % (name, os.getpid())
     meta = {"name": name, "breaks_property": props[0], "checked_properties": props, "ran": []}
     try:
@@ -93,7 +95,7 @@ def main():
             merged = dict(old["checks"])
             merged.update(meta["checks"])
             meta["checks"] = merged
-        for k in ("needs_to_manifest", "summary"):
+        for k in ("needs_to_manifest", "summary", "origin"):
             if k in old:
                 meta[k] = old[k]
         json.dump(meta, open(mp, "w"), indent=1)
